@@ -1,16 +1,24 @@
-int lfunc_0(void){ return 119; }
+int lfunc_0(void){ return 60; }
 void *addr_lfunc_0(void){ return (void*)lfunc_0; }
 extern int lfunc_0(void); void *l1_addr_lfunc_0(void){ return (void*)lfunc_0; }
-int ldata_1[4] = { 172 };
+int ldata_1[16] = { 127 };
 const void *addr_ldata_1(void){ return ldata_1; } int read_ldata_1(void){ return ldata_1[0]; }
 extern int ldata_1[]; const void *l1_addr_ldata_1(void){ return ldata_1; } int l1_read_ldata_1(void){ return ldata_1[0]; }
-const int ldata_ro_2[2] = { 145 };
-const void *addr_ldata_ro_2(void){ return ldata_ro_2; } int read_ldata_ro_2(void){ return ldata_ro_2[0]; }
-extern const int ldata_ro_2[]; const void *l1_addr_ldata_ro_2(void){ return ldata_ro_2; } int l1_read_ldata_ro_2(void){ return ldata_ro_2[0]; }
-int real_lalias_3 = 54; extern int lalias_3 __attribute__((weak, alias("real_lalias_3")));
-void *addr_lalias_3(void){ return &real_lalias_3; } int read_lalias_3(void){ return real_lalias_3; } void write_lalias_3(int v){ real_lalias_3 = v; }
-static int impl_lifunc_4(void){ return 154; } static void *res_lifunc_4(void){ return (void*)impl_lifunc_4; } int lifunc_4(void) __attribute__((ifunc("res_lifunc_4"))); void *addr_lifunc_4(void){ return (void*)lifunc_4; }
-int lalias_st_5[16]; extern __typeof(lalias_st_5) t_lalias_st_5 __attribute__((alias("lalias_st_5")));
-void *addr_lalias_st_5(void){ return (void*)t_lalias_st_5; } int read_lalias_st_5(void){ return t_lalias_st_5[0]; } void write_lalias_st_5(int v){ t_lalias_st_5[0] = v; } void *waddr_lalias_st_5(void){ return (void*)t_lalias_st_5; }
-int lalias_multi_6 = 101; extern __typeof(lalias_multi_6) w_lalias_multi_6 __attribute__((weak, alias("lalias_multi_6"))); extern __typeof(lalias_multi_6) t_lalias_multi_6 __attribute__((alias("lalias_multi_6")));
-void *addr_lalias_multi_6(void){ return (void*)&w_lalias_multi_6; } int read_lalias_multi_6(void){ return w_lalias_multi_6; } void write_lalias_multi_6(int v){ t_lalias_multi_6 = v; } void *waddr_lalias_multi_6(void){ return (void*)&t_lalias_multi_6; }
+int real_lalias_2 = 197; extern int lalias_2 __attribute__((weak, alias("real_lalias_2")));
+void *addr_lalias_2(void){ return &real_lalias_2; } int read_lalias_2(void){ return real_lalias_2; } void write_lalias_2(int v){ real_lalias_2 = v; }
+int lfunc_3(void){ return 179; }
+void *addr_lfunc_3(void){ return (void*)lfunc_3; }
+extern int lfunc_3(void); void *l1_addr_lfunc_3(void){ return (void*)lfunc_3; }
+int ldata_4[4] = { 178 };
+const void *addr_ldata_4(void){ return ldata_4; } int read_ldata_4(void){ return ldata_4[0]; }
+extern int ldata_4[]; const void *l1_addr_ldata_4(void){ return ldata_4; } int l1_read_ldata_4(void){ return ldata_4[0]; }
+#ifdef EIFUNC_FROM_LIB
+extern int eifunc_5(void); void *l1_addr_eifunc_5(void){ return (void*)eifunc_5; } int l1_call_eifunc_5(void){ return eifunc_5(); }
+#endif
+int real_lalias_6 = 181; extern int lalias_6 __attribute__((weak, alias("real_lalias_6")));
+void *addr_lalias_6(void){ return &real_lalias_6; } int read_lalias_6(void){ return real_lalias_6; } void write_lalias_6(int v){ real_lalias_6 = v; }
+static int impl_lifunc_7(void){ return 138; } static void *res_lifunc_7(void){ return (void*)impl_lifunc_7; } int lifunc_7(void) __attribute__((ifunc("res_lifunc_7"))); void *addr_lifunc_7(void){ return (void*)lifunc_7; }
+int lalias_st_8[16]; extern __typeof(lalias_st_8) t_lalias_st_8 __attribute__((alias("lalias_st_8")));
+void *addr_lalias_st_8(void){ return (void*)t_lalias_st_8; } int read_lalias_st_8(void){ return t_lalias_st_8[0]; } void write_lalias_st_8(int v){ t_lalias_st_8[0] = v; } void *waddr_lalias_st_8(void){ return (void*)t_lalias_st_8; }
+int lalias_multi_9 = 188; extern __typeof(lalias_multi_9) w_lalias_multi_9 __attribute__((weak, alias("lalias_multi_9"))); extern __typeof(lalias_multi_9) t_lalias_multi_9 __attribute__((alias("lalias_multi_9")));
+void *addr_lalias_multi_9(void){ return (void*)&w_lalias_multi_9; } int read_lalias_multi_9(void){ return w_lalias_multi_9; } void write_lalias_multi_9(int v){ t_lalias_multi_9 = v; } void *waddr_lalias_multi_9(void){ return (void*)&t_lalias_multi_9; }
